@@ -101,6 +101,20 @@ def load_fonts():
             continue
         f["name"].setName(s, 256 + i, 1, 0, 0)
     _FONTS["tiny:hostile-names-ttf"] = (tinyfont.to_bytes(f), -1)
+    # per-point and per-component flag bits that only some positions usually carry: OVERLAP_SIMPLE on
+    # the first point only / on later points only / on several, OVERLAP_COMPOUND on a composite
+    f = tinyfont.reload(tinyfont.build({"kind": "ttf", "shapes": "mixed", "glyphs": ["a", "b", "c", "d"], "composite": True}))
+    glyf = f["glyf"]
+    for name, positions in ((".notdef", (-1,)), ("a", (0,)), ("b", (1, 2)), ("c", (0, 1, 5))):
+        g = glyf[name]
+        g.expand(glyf)
+        for pos in positions:
+            g.flags[pos] |= 0x40
+    for name in f.getGlyphOrder():
+        g = glyf[name]
+        if g.isComposite():
+            g.components[-1].flags |= 0x0400
+    _FONTS["tiny:overlap-flags"] = (tinyfont.to_bytes(f), -1)
     spec = dict(spec, kind="cff")
     _FONTS["tiny:hostile-names-cff"] = (tinyfont.build_bytes(spec), -1)
 
